@@ -634,3 +634,14 @@ Proof.
       rewrite (map_strip_id lsv Hzero). f_equal. f_equal.
       rewrite !zlen_cons, !zlen_app, Htb. change (zlen (@nil Z)) with 0. lia.
 Qed.
+
+(* Marshal loses nothing: two valid allocations with the same encoding are the same allocation *)
+Theorem vla_marshal_injective : forall v1 v2 bs, valid_vla v1 -> valid_vla v2 ->
+  vla_marshal v1 = Ok bs -> vla_marshal v2 = Ok bs -> v1 = v2.
+Proof.
+  intros v1 v2 bs H1 H2 M1 M2.
+  rewrite (vla_marshal_layout v1 H1) in M1. rewrite (vla_marshal_layout v2 H2) in M2.
+  assert (E : vla_layout v1 = vla_layout v2) by congruence.
+  pose proof (vla_roundtrip v1 v1 H1) as R1. pose proof (vla_roundtrip v2 v1 H2) as R2.
+  rewrite E in R1. rewrite R1 in R2. congruence.
+Qed.
